@@ -60,7 +60,7 @@ func VerifC19_ReceivedEntriesRecordedOnce() {
 	ctx := context.Background()
 	if st.SelfPeer == st.Responder {
 		req := verifScalarRequest("req")
-		req.TransferId = uint64(chid.ID)
+		zz.SetInt(&req.TransferId, uint64(chid.ID))
 		zz.Assume(req.MessageType == uint64(types.VoucherMessage))
 		req.VoucherPtr = zz.Node("v")
 		_ = f.rcv.receiveRequest(ctx, chid.Initiator, req)
@@ -72,7 +72,7 @@ func VerifC19_ReceivedEntriesRecordedOnce() {
 		zz.Reach("voucher received")
 	} else {
 		resp := verifArbitraryResponse("resp")
-		resp.TransferId = uint64(chid.ID)
+		zz.SetInt(&resp.TransferId, uint64(chid.ID))
 		zz.Assume(resp.MessageType == uint64(types.VoucherResultMessage) && resp.RequestAccepted)
 		zz.Assume(!resp.EmptyVoucherResult() && resp.VoucherResultPtr != nil)
 		_ = f.rcv.receiveResponse(ctx, chid.Responder, resp)
